@@ -257,6 +257,7 @@ func genC02(c *Ctx) {
 		v2("D", strings.Repeat("u", n), strings.Repeat("p", n), c02Challenge(r), r.Bytes(8), true)
 	}
 
+	c.Case("c02.fact.clock_reads")
 	// ---- one reading of the clock per response (second boundaries of the wall clock) ----
 	c.Check("c02.authenticate_clock", S("User"), S("Password"), S("DOMAIN"), I(int64(c.N(3, 12))))
 
